@@ -48,7 +48,7 @@ const pruneCountKey = "viper:server_chain.state.prune_below_count"
 type fblk struct {
 	b     *block.Block      // the primary's block
 	want  map[string][]byte // model: full state of the block (leaf path -> value bytes), captured at assembly
-	saved bool              // the follower's finalizeBlock got past SaveChanges for this block (on any incarnation)
+	saved bool              // the block's state root is on the follower's disk (its SaveChanges batch was written, on any incarnation)
 	have  bool              // delivered to the current incarnation of the follower
 }
 
@@ -66,10 +66,6 @@ func (h *bsh27) UpdateFinalizedBlock(ctx context.Context, b *block.Block) error 
 		fr.Finalize(b)
 	}
 	c.DeleteRoundsBelow(b.Round)
-	if fb := f.byHash[b.Hash]; fb != nil {
-		fb.saved = true
-	}
-	f.finalized++
 	return nil
 }
 
@@ -94,16 +90,17 @@ type follower struct {
 	syncNext  int   // sync (instead of executing) this many next blocks
 	finalized int
 
-	floor       int64 // blocks at or above this round must be readable (max over prunes)
-	afterCrash  bool  // a crash happened since the start: violations carry /after-crash
-	lastDead    map[int64]int
-	lastSets    map[int64]map[string]bool
-	prunedBy    map[string]int64 // node hash -> round of the dead-node record it was pruned under (diagnostics)
-	fault       *fault27         // armed disk fault (nil none)
-	directPrune bool
-	nPrunes     int
-	nChecks     int
-	restarts    int
+	floor        int64 // blocks at or above this round must be readable (max over prunes)
+	afterCrash   bool  // a crash happened since the start: violations carry /after-crash
+	lastDead     map[int64]int
+	lastSets     map[int64]map[string]bool
+	prunedBy     map[string]int64 // node hash -> round of the dead-node record it was pruned under (diagnostics)
+	fault        *fault27         // armed disk fault (nil none)
+	directPrune  bool
+	partialPrune bool // a prune was cut short by a fault: nodes may be gone while their records are still there
+	nPrunes      int
+	nChecks      int
+	restarts     int
 
 	churnModel
 }
@@ -412,11 +409,16 @@ func (f *follower) finalizeRounds(upto int64) {
 		c.FinalizeRound(r)
 		synctest.Wait()
 		f.watch(fmt.Sprintf("after FinalizeRound(%d)", f.nextRound))
+		if f.rp.Disk.Crashed() {
+			// the process is dead: whatever it still did in memory does not count
+			f.afterDisk("finalize")
+			break
+		}
 		after := c.GetLatestFinalizedBlock().Round
 		if after != before {
+			f.finalized += int(after - before)
 			f.tr.Event("c27 finalize-round %d lfb %d -> %d", f.nextRound, before, after)
 		}
-		f.afterDisk("finalize")
 	}
 	// new dead-node records were written: refresh the picture before bubble time can pass again
 	f.observe(-1)
@@ -442,6 +444,9 @@ func (f *follower) observe(defBefore int) {
 	if f.lost {
 		return
 	}
+	if !f.dead {
+		f.refreshSaved(f.rp.C.GetStateDB())
+	}
 	nowSets := deadRecordSets(f.rp.Disk)
 	now := map[int64]int{}
 	for r, m := range nowSets {
@@ -458,6 +463,18 @@ func (f *follower) observe(defBefore int) {
 	}
 	f.lastDead = now
 	f.lastSets = nowSets
+	if f.partialPrune {
+		// the version that prune ran at is not observable; what configuration promises is that
+		// nothing from LFB - count on is touched
+		f.partialPrune = false
+		if lo := f.rp.C.GetLatestFinalizedBlock().Round - f.count; lo > f.floor {
+			f.floor = lo
+		}
+		f.tr.Probe("prune-cut-short")
+		if len(removed) == 0 && !f.dead {
+			f.check(f.rp.C.GetStateDB(), "after-partial-prune")
+		}
+	}
 	if len(removed) == 0 {
 		return
 	}
@@ -500,6 +517,19 @@ func bucketN(n int) string {
 		return "deleted=100..999"
 	default:
 		return "deleted>=1000"
+	}
+}
+
+// refreshSaved marks the blocks whose state root is on the follower's disk. Decided on
+// the disk, not on what the finalisation code reported.
+func (f *follower) refreshSaved(ndb util.NodeDB) {
+	for _, fb := range f.blocks {
+		if fb.saved {
+			continue
+		}
+		if _, err := ndb.GetNode(fb.b.ClientStateHash); err == nil {
+			fb.saved = true
+		}
 	}
 }
 
@@ -570,10 +600,9 @@ func (f *follower) restart(why string) {
 	}
 	// which block does the node come back at? what the shipped code recorded as LFB in the state DB
 	head := rp.Genesis
-	var headB *block.Block
 	if lr, err := rp.C.LoadLFBRound(); err == nil {
 		if fb := f.byHash[lr.Hash]; fb != nil {
-			head, headB = fb.b, fb.b
+			head = fb.b
 		} else if lr.Hash != rp.Genesis.Hash {
 			f.viol("restart", "C27/lfb-record-names-unknown-block", fmt.Sprintf("LFB record round %d hash %s", lr.Round, lr.Hash))
 			f.lost = true
@@ -604,9 +633,7 @@ func (f *follower) restart(why string) {
 	hr.Finalize(nb)
 	c.AddRound(hr)
 	c.SetCurrentRound(head.Round)
-	if headB != nil {
-		f.byHash[headB.Hash].saved = true
-	}
+	f.refreshSaved(c.GetStateDB())
 	f.startWorkers()
 	f.tr.Event("c27 RESTART (%s) at round=%d root=%x", why, head.Round, short(head.ClientStateHash))
 	f.lastDead = deadRecords(rp.Disk)
@@ -655,11 +682,6 @@ func (f *follower) tick(secs int64) {
 	f.tr.SimTime += float64(secs)
 	if d.Crashed() {
 		f.afterDisk("tick")
-		// a prune may have been cut short (nodes deleted, records still there): the version it ran
-		// at is not observable; what configuration promises is that nothing from LFB - count on is touched
-		if lo := f.rp.C.GetLatestFinalizedBlock().Round - f.count; lo > f.floor {
-			f.floor = lo
-		}
 	}
 	f.observe(def)
 }
@@ -736,6 +758,9 @@ func (f *follower) arm(ft *fault27) {
 			return nil
 		}
 		f.fault = nil
+		if ft.site == "MultiDeleteNode" || ft.site == "multiDeleteDeadNodes" {
+			f.partialPrune = true
+		}
 		if ft.ioerr {
 			f.tr.Fault("io-error/" + ft.site)
 			f.tr.Event("c27 IO-ERROR at write #%d of %s", ft.seen, ft.site)
@@ -952,7 +977,10 @@ func setup27(w *ledger.World, r *ledger.Runner) []ledger.Observer {
 			return
 		}
 		site := sites27[int(st.Int(0, 0))%len(sites27)]
-		f.arm(&fault27{site: site, nth: 1 + int(st.Int(1, 0))%4, ioerr: st.Int(2, 0) != 0})
+		// no injected I/O *error* in SaveChanges: util.MerklePatriciaTrie.SaveChanges selects between its
+		// error channel and its done channel when both are ready, so whether the error is seen is decided
+		// by the Go runtime's unseedable choice (see NOTES.md); a crash there is deterministic
+		f.arm(&fault27{site: site, nth: 1 + int(st.Int(1, 0))%4, ioerr: st.Int(2, 0) != 0 && site != "SaveChanges"})
 		if site == "multiDeleteDeadNodes" {
 			f.fault.nth = 1
 		}
